@@ -1,6 +1,6 @@
 //verif:pkg .
 //verif:use servers_mcp
-//verif:bound sequential (one-step inductive): a tool / prompt / resource registry holding 0..2 entries with symbolic names (printable ASCII <= 4) plus one operation {register new or existing name, unregister, list, call/get/read of a present or absent name}; concurrent: register || {list, call, get, read} on each registry and register/unregister || list on notification-handler tables with 2 goroutines under the engine's happens-before race detector, each reported pair confirmed with go test -race; two concurrent registrations of the same new name (tools, prompts, resources) and unregister vs register of one tool under every schedule with <= 2 (thorough 3) preemptions at synchronisation operations, violations confirmed natively by holding the preempted goroutine at the recorded operation
+//verif:bound sequential (one-step inductive): a tool / prompt / resource registry holding 0..2 entries with symbolic names (printable ASCII <= 4) plus one operation {register new or existing name, unregister, list, call/get/read of a present or absent name}; concurrent: register || {list, call, get, read} on each registry and register/unregister || list on notification-handler tables with 2 goroutines under the engine's happens-before race detector, each reported pair confirmed with go test -race; a call racing the unregistration of its tool, a prompts/get racing a re-registration; two concurrent registrations of the same new name (tools, prompts, resources) and unregister vs register of one tool under every schedule with <= 2 (thorough 3) preemptions at synchronisation operations, violations confirmed natively by holding the preempted goroutine at the recorded operation
 //verif:assume linearizability with more than two goroutines is outside the claim
 package mcp
 
@@ -382,5 +382,50 @@ func H_C12_prompts_same_name_twice() {
 			}
 		}
 	}
+	vReach("end")
+}
+
+// H_C12_tools_call_vs_unregister: a call of a tool that is being unregistered either reaches its handler or is
+// refused as not found - never a crash - under every schedule; a tool registered throughout is always served.
+func H_C12_tools_call_vs_unregister() {
+	tm := newToolManager()
+	tm.registerTool(NewTool("stays"), c12ToolHandler("stays"))
+	tm.registerTool(NewTool("x"), c12ToolHandler("x0"))
+	which := vChoice("called", 2)
+	name := []string{"x", "stays"}[which]
+	var text string
+	var served bool
+	c12Explore(func() { tm.unregisterTools("x") },
+		func() { text, served = c12CallTool(tm, name) })
+	if which == 1 {
+		vAssert("registered-throughout-is-served", vAnd(served, text == "stays"))
+	} else if served {
+		vAssert("served-by-its-handler", text == "x0")
+	}
+	_, after := c12CallTool(tm, "x")
+	vAssert("not-found-after-unregister", !after)
+	vReach("end")
+}
+
+func H_C12_prompts_get_vs_register() {
+	pm := newPromptManager()
+	mk := func(tag string) promptHandler {
+		return func(ctx context.Context, r *GetPromptRequest) (*GetPromptResult, error) {
+			return &GetPromptResult{Description: tag}, nil
+		}
+	}
+	pm.registerPrompt(&Prompt{Name: "p", Description: "old"}, mk("old"))
+	var desc string
+	var served bool
+	c12Explore(func() { pm.registerPrompt(&Prompt{Name: "p", Description: "new"}, mk("new")) },
+		func() {
+			req := &JSONRPCRequest{JSONRPC: "2.0", ID: 1, Request: Request{Method: MethodPromptsGet}, Params: map[string]interface{}{"name": "p"}}
+			res, _ := pm.handleGetPrompt(context.Background(), req)
+			if gr, ok := res.(*GetPromptResult); ok {
+				desc, served = gr.Description, true
+			}
+		})
+	vAssert("registered-throughout-is-served", served)
+	vAssert("one-of-the-two-handlers", vOr(desc == "old", desc == "new"))
 	vReach("end")
 }
